@@ -89,3 +89,22 @@ def deepRun (T : Twin K V) (s : CSt K V) : List (Op K V) → Option (CSt K V × 
       | some (s'', rs) => some (s'', r :: rs)
 
 end Deep
+
+namespace Deep
+open Spec Model
+variable {K V : Type} [DecidableEq K] [Inhabited V]
+
+/-- the atomic actions of one API call, in order, as recorded by a tracing twin; together with the state and
+result of `deepStep` -/
+def deepTrace (T : Twin K V) (s : CSt K V) (op : Op K V) : Option (CSt K V × Model.Res K V × List (Ev K V)) :=
+  match encode op with
+  | none => none
+  | some (m, args) =>
+    match runMethod T FUEL m args (ofSt s) with
+    | none => none
+    | some (vs, w) =>
+      match decode op vs w with
+      | some out => some (stOf w, { out := out, fn := w.fn, cbs := w.cbs }, w.ev)
+      | none => none
+
+end Deep
